@@ -300,3 +300,107 @@ func (p *Prog) dependsOnD(v ssa.Value, src func(ssa.Value) bool, depth int, seen
 	}
 	return false
 }
+
+// ---- lower bounds ----
+
+// edgeFacts: what is known on the edge pred -> succ: the facts at the end of pred plus the branch taken.
+func edgeFacts(pred, succ *ssa.BasicBlock) []Cmp {
+	if len(pred.Instrs) == 0 {
+		return nil
+	}
+	last := pred.Instrs[len(pred.Instrs)-1]
+	out := factsAt(last)
+	if iff, ok := last.(*ssa.If); ok && len(pred.Succs) == 2 && pred.Succs[0] != pred.Succs[1] {
+		out = append(out, canonCond(iff.Cond, pred.Succs[0] == succ))
+	}
+	return out
+}
+
+// geq: the value v is, under the given facts, at least the value identified by src - because it is that value, the
+// builtin max over it, it plus a non-negative constant, a value a dominating comparison showed to be at least it, a phi
+// all of whose edges are, the result of a module function all of whose returns are, or a parameter for which every call
+// site passes such a value. Conversions between integer types are looked through (versions and timestamps are
+// non-negative). A may-dependence is not enough: min(a, b) depends on both and is at least neither.
+func (p *Prog) geq(v ssa.Value, facts []Cmp, src func(ssa.Value) bool, depth int) bool {
+	if v == nil || depth > 8 {
+		return false
+	}
+	u := unconv(v)
+	if src(u) || src(v) {
+		return true
+	}
+	for _, f0 := range facts {
+		for _, f := range []Cmp{f0, f0.Flip()} {
+			if (f.Op == ">" || f.Op == ">=") && f.Y != nil && unconv(f.X) == u && (src(unconv(f.Y)) || src(f.Y)) {
+				return true
+			}
+		}
+	}
+	switch x := u.(type) {
+	case *ssa.BinOp:
+		if k, ok := constInt(x.Y); ok && x.Op == token.ADD && k >= 0 {
+			return p.geq(x.X, facts, src, depth+1)
+		}
+	case *ssa.Phi:
+		if len(x.Edges) == 0 {
+			return false
+		}
+		for i, e := range x.Edges {
+			if !p.geq(e, edgeFacts(x.Block().Preds[i], x.Block()), src, depth+1) {
+				return false
+			}
+		}
+		return true
+	case *ssa.Call:
+		if bi, ok := x.Call.Value.(*ssa.Builtin); ok {
+			if bi.Name() != "max" {
+				return false
+			}
+			for _, a := range x.Call.Args {
+				if p.geq(a, facts, src, depth+1) {
+					return true
+				}
+			}
+			return false
+		}
+		cs := p.Callees(x)
+		if len(cs) == 0 || x.Call.IsInvoke() {
+			return false
+		}
+		for _, g := range cs {
+			if !p.InModule(g) || g.Signature.Results().Len() != 1 || len(g.Blocks) == 0 {
+				return false
+			}
+			n := 0
+			okAll := true
+			eachInstr(g, func(ins ssa.Instruction) {
+				if ret, ok := ins.(*ssa.Return); ok {
+					n++
+					if !p.geq(retOperand(ret, 0), factsAt(ret), src, depth+1) {
+						okAll = false
+					}
+				}
+			})
+			if n == 0 || !okAll {
+				return false
+			}
+		}
+		return true
+	case *ssa.Parameter:
+		if p.isExported(x.Parent()) {
+			return false
+		}
+		sites := p.CallersOf(x.Parent())
+		args := p.callerArgs(x)
+		if len(args) == 0 || len(args) != len(sites) {
+			return false
+		}
+		for i, a := range args {
+			if !p.geq(a, factsAt(sites[i]), src, depth+1) {
+				return false
+			}
+		}
+		return true
+	}
+	return false
+}
